@@ -65,6 +65,32 @@ class Mx(object):
     e, f, g, h = o.m
     return Mx(a * e + b * g, a * f + b * h, c * e + d * g, c * f + d * h)
 
+  # the same non-commutative product through * and a non-commutative "sum" (entries joined as
+  # decimal digits), |, & and ^ (entry-wise on the *left* operand's first row only): operators
+  # that commute on numbers need not commute on every element type
+  def __mul__(self, o):
+    return self.__matmul__(o)
+
+  def __add__(self, o):
+    if not isinstance(o, Mx):
+      return NotImplemented
+    return Mx(*[10 * x + y for x, y in zip(self.m, o.m)])
+
+  def __or__(self, o):
+    if not isinstance(o, Mx):
+      return NotImplemented
+    return Mx(self.m[0] | o.m[0], self.m[1], o.m[2], self.m[3] | o.m[3])
+
+  def __and__(self, o):
+    if not isinstance(o, Mx):
+      return NotImplemented
+    return Mx(self.m[0] & o.m[0], self.m[1], o.m[2], self.m[3] & o.m[3])
+
+  def __xor__(self, o):
+    if not isinstance(o, Mx):
+      return NotImplemented
+    return Mx(self.m[0] ^ o.m[0], self.m[1], o.m[2], self.m[3] ^ o.m[3])
+
   def __eq__(self, o):
     if not isinstance(o, Mx):
       return NotImplemented
@@ -374,6 +400,8 @@ def domain(base):
     dom = [("shift", "wide", "shifts")]
   elif base in ("and", "or", "xor", "invert"):
     dom = [("bits", "bits", "bits"), ("bool", "bool", "bits")]
+    if base != "invert":
+      dom = dom * 3 + [("mx", "mx", "mx")]
   elif base == "pow":
     dom = [(f, f, "exps") for f in ("int", "float", "frac", "complex", "mixed", "real")]
   elif base == "matmul":
@@ -387,6 +415,10 @@ def domain(base):
     dom += [(f + "*int", f, "int") for f in ("float", "frac", "complex")]
     if base in ("eq", "ne"):
       dom += [("objects", "objects", "objects")] * 3
+    if base in ("add", "mul"):
+      # element types on which + and * do not commute: the reflected operator must keep the order
+      # (strings / tuples would do as well, but as scalar operands they are iterables, not scalars)
+      dom += [("mx", "mx", "mx")] * 2
   return dom * 6 + [("wild", "wild", "wild")]
 
 
@@ -880,7 +912,8 @@ GAMMAS = st.one_of(st.floats(0.1, 20, allow_nan=False), st.integers(1, 20),
 WITHSPECIAL = wone((7, REALS), (1, SPECIAL))
 POSF = st.one_of(st.floats(1e-6, 1e6, allow_nan=False, exclude_min=False), st.integers(1, 10 ** 6),
                  st.sampled_from([1, 1.0, 2, 8, 10, 100, 1000, 0.5, math.e]))
-LOGS = wone((10, POSF), (1, st.sampled_from([0, 0.0])), (2, st.floats(-1e3, -1e-3)), (1, st.integers(-50, -1)),
+LOGS = wone((10, POSF), (2, st.sampled_from([2 ** 29, 2 ** 31, 2 ** 39, 2 ** 47, 2 ** 51, 2 ** 58, 8, 1024, 10 ** 15, 3 ** 20])),
+            (1, st.sampled_from([0, 0.0])), (2, st.floats(-1e3, -1e-3)), (1, st.integers(-50, -1)),
             (2, CPLX.filter(lambda z: z != 0)))
 LOG1PS = wone((6, st.floats(-0.999, 1e6, allow_nan=False)), (4, POSF), (1, st.sampled_from([-1, -1.0])),
               (2, st.floats(-1e3, -1.001)), (2, CPLX.filter(lambda z: z != -1)))
@@ -1044,6 +1077,17 @@ def run_broadcast(case):
     if len(got) != len(exp) or not all(same(g, e) for g, e in zip(got, exp)):
       raise Violation("%s(%s of %r%s): got %r, expected %r"
                       % (name, cont, items, " , %r" % (extra,) if extra else "", got, exp))
+    if what != "scalar":
+      # "the i-th output equals the function applied to the i-th element": the very same function,
+      # so each element of the broadcast result is bit-identical to the scalar call on that element
+      for i, (g, x) in enumerate(zip(got, items * (len(got) // max(1, len(items)) + 1))):
+        try:
+          one = call(x)
+        except Exception:
+          continue
+        if sig(one) != sig(g):
+          raise Violation("%s broadcast over a %s gives %r at position %d, the scalar call %s(%r) gives %r"
+                          % (name, cont, g, i, name, x, one))
 
   if cont == "scalar":
     x = items[0]
